@@ -150,6 +150,11 @@ func (e *Exec) binop(op token.Token, a, b Val, opT, resT types.Type, st *State, 
 	if op != token.SHL && op != token.SHR {
 		b = e.coerce(b, opT)
 	}
+	if (op == token.EQL || op == token.NEQ) && st != nil && a.Loc == nil && b.Loc == nil {
+		if cc := e.c.comparableCond(opT, a.T, b.T); cc != "true" && a.T != "(mk_Iface 0 nilbox)" && b.T != "(mk_Iface 0 nilbox)" {
+			e.safety("comparable", st, cc, "== on interface values with identical dynamic types needs a comparable type", pos)
+		}
+	}
 	r, div := e.c.binopVal(tokOp(op), a, b, opT, resT)
 	if div != "" && st != nil {
 		e.safety("div", st, div, "division by zero", pos)
